@@ -46,6 +46,19 @@ Definition be16_at (l : list Z) (i : Z) : Z := nthZ l i * 256 + nthZ l (i + 1).
 Definition be32_at (l : list Z) (i : Z) : Z :=
   ((nthZ l i * 256 + nthZ l (i + 1)) * 256 + nthZ l (i + 2)) * 256 + nthZ l (i + 3).
 
+(* big-endian stores into a byte array (swLong()/swShort() of adf_util.c) *)
+Definition put_be16 (l : list Z) (off v : Z) : list Z :=
+  updZ (updZ l off (v / 256 mod 256)) (off + 1) (v mod 256).
+Definition put_be32 (l : list Z) (off v : Z) : list Z :=
+  updZ (updZ (updZ (updZ l off (v / 16777216 mod 256)) (off + 1) (v / 65536 mod 256)) (off + 2) (v / 256 mod 256)) (off + 3) (v mod 256).
+
+(* memcpy: n bytes of src starting at i (reads past the end of the list yield 0), written into dst from offset j (writes
+   past the end of the list are dropped: the checks around the call are what must keep them inside) *)
+Definition subZ (l : list Z) (i n : Z) : list Z := map (fun k => nthZ l (i + Z.of_nat k)) (seq 0 (Z.to_nat n)).
+Fixpoint blit_nat (l : list Z) (i : nat) (src : list Z) : list Z :=
+  match src with [] => l | x :: r => blit_nat (upd_nat l i x) (S i) r end.
+Definition blit (l : list Z) (i : Z) (src : list Z) : list Z := if i <? 0 then l else blit_nat l (Z.to_nat i) src.
+
 (* loops *)
 Fixpoint while_ {S : Type} (fuel : nat) (c : S -> bool) (b : S -> S) (s : S) : option S :=
   match fuel with
